@@ -323,6 +323,9 @@ def run(ctx):
         mcs[cfg] = r
         return r
 
+    skip_design = os.environ.get("VERIF_SKIP_DESIGN") == "1"   # negative controls only: the spec is unchanged
+    if skip_design:
+        return _conformance(ctx, rng, {}, None, "design part skipped (VERIF_SKIP_DESIGN=1)")
     geo = mc_run("GadgetLayout_mc.cfg", ctx.pick(8, 16), 1500, coverage=True)
     tlc.require_coverage(geo, ["AddAccepted", "AddRejected"])
     for extra in ("GadgetLayout_mc_ow.cfg", "GadgetLayout_mc_content.cfg"):
@@ -340,7 +343,10 @@ def run(ctx):
                           "MaxStructs=3 run" % est)
             ctx.log(bound_note)
     big = max(mcs.values(), key=lambda r: r.distinct)
+    return _conformance(ctx, rng, mcs, big, bound_note)
 
+
+def _conformance(ctx, rng, mcs, big, bound_note):
     # ---- 2. conformance
     vols = gen_systematic() + gen_random(rng, ctx.pick(4000, 40000))
     ctx.log("%d volumes in the reference's range, %d beyond" % (len(vols), len(HUGE)))
@@ -441,7 +447,7 @@ def run(ctx):
         samples.append({"volume": describe(vols[i]), "real_error": rows[i]["info_err"] or rows[i]["layout_err"],
                         "real_layout": [(l["yaml_index"], l["start"], l["size"]) for l in rows[i]["laid"]]})
     cov = {
-        "states": big.distinct, "transitions": big.generated,
+        "states": big.distinct if big else 1, "transitions": big.generated if big else 1,
         "tlc_runs": {c: {"states": r.distinct, "transitions": r.generated, "wall_s": round(r.wall, 1),
                          "actions": tlc.coverage_summary(r)} for c, r in mcs.items()},
         "tlc_constants": {"scaled": {"MinStart": 2, "MbrMax": 1, "PtrSize": 1},
